@@ -94,13 +94,14 @@ def nonEmptyVar : FVar Rat → Bool
   | .flt iv => decide (iv.min ≤ iv.max)
   | .int d => !d.isEmpty
 
-/-- Guard of `C08_fast_path_sound_partial`:
+/-- Guard of the router-level statement `C08_router_sound_partial` (the router called on its own,
+without the validation and the pending-AST test of the entry points):
  1. the objective is a float variable with `min ≤ max`, every variable has a non-empty domain;
  2. every posted constraint is a props-level non-strict bound `x ≤ c`, `c ≤ x`, `x ≥ c`, `c ≥ x`,
     `x = c` on the OBJECTIVE variable (no deferred post, no linear row, nothing on another variable);
  3. these bounds are consistent with each other and with the domain (the model is feasible);
  4. the router's answer does not come from the propagation input (`usesProp = false`). -/
-def fastGuard (m : OModel Rat) (isMax : Bool) (obj : Nat) : Bool :=
+def routerGuard (m : OModel Rat) (isMax : Bool) (obj : Nat) : Bool :=
   (match m.vars[obj]? with
    | some (.flt iv) =>
      decide (iv.min ≤ iv.max)
@@ -108,6 +109,24 @@ def fastGuard (m : OModel Rat) (isMax : Bool) (obj : Nat) : Bool :=
        && (m.posts.flatMap upOf).all (fun u => decide (iv.min ≤ u))
    | _ => false)
   && m.vars.all nonEmptyVar
+  && m.posts.all (boundPost obj)
+  && (m.posts.flatMap loOf).all (fun l => (m.posts.flatMap upOf).all (fun u => decide (l ≤ u)))
+  && !usesProp m isMax obj
+
+/-- Guard of `C08_fast_path_sound_partial` (entry points `minimize` / `maximize`):
+ 1. every posted constraint is a props-level non-strict bound `x ≤ c`, `c ≤ x`, `x ≥ c`, `c ≥ x`,
+    `x = c` on the OBJECTIVE variable;
+ 2. these bounds are consistent with each other and with the domain of the objective;
+ 3. the router's answer does not come from the propagation input (`usesProp = false`).
+Since the fixes c9cb80d / 9b99c03 / 87f7dea the guard no longer has to ask for "no deferred
+constraint", "the objective is a float variable" and "no empty domain": the entry point declines,
+declines and reports `InvalidDomain` in these cases. -/
+def fastGuard (m : OModel Rat) (isMax : Bool) (obj : Nat) : Bool :=
+  (match m.vars[obj]? with
+   | some (.flt iv) =>
+     (m.posts.flatMap loOf).all (fun l => decide (l ≤ iv.max))
+       && (m.posts.flatMap upOf).all (fun u => decide (iv.min ≤ u))
+   | _ => true)
   && m.posts.all (boundPost obj)
   && (m.posts.flatMap loOf).all (fun l => (m.posts.flatMap upOf).all (fun u => decide (l ≤ u)))
   && !usesProp m isMax obj
@@ -445,6 +464,71 @@ theorem extractSimple_float (vars : List (FVar Rat)) (obj : Nat) (iv : FI Rat)
   simp [extractSimple, h]
 
 
+/-! ### the entry points -/
+
+theorem validVar_nonEmpty (v : FVar Rat) (h : validVar v = true) : nonEmptyVar v = true := by
+  cases v with
+  | int d => simpa [validVar, nonEmptyVar] using h
+  | flt iv =>
+    simp only [validVar, Bool.and_eq_true, Bool.not_eq_true'] at h
+    have := h.1.1
+    num_simp at this
+    simp only [nonEmptyVar, decide_eq_true_eq]
+    simp only [decide_eq_false_iff_not, Rat.not_lt] at this
+    exact this
+
+theorem extractSimple_some (vars : List (FVar Rat)) (obj x : Nat) (h : extractSimple vars obj = some x) :
+    x = obj ∧ ∃ iv, vars[obj]? = some (.flt iv) := by
+  simp only [extractSimple] at h
+  split at h
+  · rename_i iv hv; simp only [Option.some.injEq] at h; exact ⟨h.symm, iv, hv⟩
+  · simp at h
+
+theorem mkSol_not_declined (m : OModel Rat) (x : Nat) (v : Rat) (r : Reason) : mkSol m x v ≠ .declined r := by
+  simp only [mkSol]; split <;> simp
+
+/-- when the answer does not depend on the propagation input, `try_safe_float_*` never declines -/
+theorem trySafe_not_declined (m : OModel Rat) (pbs : List (Option (Rat × Rat))) (isMax : Bool) (x : Nat)
+    (iv : FI Rat) (hv : m.vars[x]? = some (.flt iv)) (hnp : usesProp m isMax x = false) (r : Reason) :
+    trySafe m pbs isMax x ≠ .declined r := by
+  simp only [trySafe, hv]
+  cases hp : m.propsNonEmpty with
+  | false => simp only [Bool.false_eq_true, if_false]; exact mkSol_not_declined _ _ _ _
+  | true =>
+    simp only [if_true]
+    simp only [usesProp, hv, hp, Bool.true_and] at hnp
+    cases htm : tryMeta iv x m.metas isMax with
+    | none => rw [htm] at hnp; simp at hnp
+    | some res =>
+      cases res with
+      | fail => rw [htm] at hnp; simp at hnp
+      | ok v => simp only [withPrecision, htm]; exact mkSol_not_declined _ _ _ _
+
+/-- a fast answer of `try_minimize` only exists for pure float models with at most two variables -/
+theorem route_min_fast_pure (m : OModel Rat) (pbs : List (Option (Rat × Rat))) (obj : Nat) (sol : List (FVal Rat))
+    (h : route m pbs false obj = .fast sol) :
+    classify m.vars = .pureFloat ∧ hasComplex m.vars = false := by
+  simp only [route] at h
+  cases he : extractSimple m.vars obj with
+  | none =>
+    rw [he] at h
+    simp only at h
+    split at h
+    · exact absurd h (hybrid_not_fast _ _)
+    · simp at h
+  | some x =>
+    rw [he] at h
+    simp only at h
+    cases hc : classify m.vars with
+    | pureInt => rw [hc] at h; simp at h
+    | mixed => rw [hc] at h; simp only [Bool.false_eq_true, if_false] at h; exact absurd h (hybrid_not_fast _ _)
+    | pureFloat =>
+      rw [hc] at h
+      simp only at h
+      cases hx : hasComplex m.vars with
+      | true => rw [hx] at h; simp at h
+      | false => exact ⟨rfl, rfl⟩
+
 /-! ### the root LP is a relaxation of the linear rows -/
 
 open Lp in
@@ -506,37 +590,34 @@ theorem rowVal_neg (a : List Rat) : ∀ (cs : List Rat) (xs : List Nat),
     | cons x xs => simp only [List.map_cons, rowVal, ih xs]; grind
 
 open Lp in
-/-- `buildRow`: with distinct variables, constants equal to their substituted value and zeros at
-the positions still to be written, the built row minus its right-hand side is the old one plus
-`Σ cᵢ·a(xᵢ)` -/
+/-- `buildRow`: with constants equal to their substituted value, the built row minus its
+right-hand side is the old one plus `Σ cᵢ·a(xᵢ)` (coefficients of a repeated variable add up) -/
 theorem buildRow_spec (vars : List (FVar Rat)) (cols : List Nat) (a : List Rat) :
     ∀ (xs : List Nat) (cs : List Rat) (row : List Rat) (rhs : Rat),
       (∀ x ∈ xs, isConst (vars.getD x (.int [0])) = true → a.getD x 0 = (boundsOf (vars.getD x (.int [0]))).1) →
-      xs.Nodup → row.length = cols.length →
+      row.length = cols.length →
       (∀ x ∈ xs, isConst (vars.getD x (.int [0])) = false → x ∈ cols) →
-      (∀ x ∈ xs, x ∈ cols → row.getD (idx cols x) 0 = 0) →
       (buildRow vars cols xs cs (row, rhs)).1.length = cols.length ∧
       dot (buildRow vars cols xs cs (row, rhs)).1 (cols.map (fun v => a.getD v 0)) - (buildRow vars cols xs cs (row, rhs)).2
         = dot row (cols.map (fun v => a.getD v 0)) - rhs + rowVal a cs xs := by
   intro xs
   induction xs with
   | nil =>
-    intro cs row rhs _ _ hl _ _
+    intro cs row rhs _ hl _
     simp only [buildRow, rowVal_nil_right]
     exact ⟨hl, by grind⟩
   | cons x xs ih =>
-    intro cs row rhs hconst hnd hl hin hz
+    intro cs row rhs hconst hl hin
     cases cs with
     | nil => simp only [buildRow, rowVal]; exact ⟨hl, by grind⟩
     | cons c cs =>
-      simp only [List.nodup_cons] at hnd
       simp only [buildRow, rowVal]
       cases hc : isConst (vars.getD x (.int [0])) with
       | true =>
         simp only [if_true]
         obtain ⟨h1, h2⟩ := ih cs row (rhs - c * (boundsOf (vars.getD x (.int [0]))).1)
-          (fun y hy => hconst y (List.mem_cons_of_mem _ hy)) hnd.2 hl
-          (fun y hy => hin y (List.mem_cons_of_mem _ hy)) (fun y hy => hz y (List.mem_cons_of_mem _ hy))
+          (fun y hy => hconst y (List.mem_cons_of_mem _ hy)) hl
+          (fun y hy => hin y (List.mem_cons_of_mem _ hy))
         refine ⟨h1, ?_⟩
         rw [h2, hconst x (List.mem_cons_self) hc]
         grind
@@ -546,19 +627,16 @@ theorem buildRow_spec (vars : List (FVar Rat)) (cols : List Nat) (a : List Rat) 
         have hil := idx_lt cols x hxc
         have hil' : cols.findIdx (fun y => decide (y = x)) < cols.length := hil
         rw [if_pos hil']
-        have hz0 := hz x (List.mem_cons_self) hxc
-        obtain ⟨h1, h2⟩ := ih cs (row.set (idx cols x) c) rhs
-          (fun y hy => hconst y (List.mem_cons_of_mem _ hy)) hnd.2 (by simpa using hl)
+        obtain ⟨h1, h2⟩ := ih cs (row.set (idx cols x) (row.getD (idx cols x) zero + c)) rhs
+          (fun y hy => hconst y (List.mem_cons_of_mem _ hy)) (by simpa using hl)
           (fun y hy => hin y (List.mem_cons_of_mem _ hy))
-          (fun y hy hyc => by
-            have hne : idx cols y ≠ idx cols x := fun he => hnd.1 (by rw [← idx_inj cols y x hyc hxc he]; exact hy)
-            rw [List.getD_eq_getElem?_getD, List.getElem?_set_ne (Ne.symm hne), ← List.getD_eq_getElem?_getD]
-            exact hz y (List.mem_cons_of_mem _ hy) hyc)
         refine ⟨h1, ?_⟩
-        have hs := dot_set row (cols.map (fun v => a.getD v 0)) (idx cols x) c (by rw [hl]; exact hil) (by simpa using hl)
-        rw [map_getD_idx cols (fun v => a.getD v 0) x hxc, hz0] at hs
+        have hs := dot_set row (cols.map (fun v => a.getD v 0)) (idx cols x) (row.getD (idx cols x) zero + c)
+          (by rw [hl]; exact hil) (by simpa using hl)
+        rw [map_getD_idx cols (fun v => a.getD v 0) x hxc] at hs
+        have hz : (zero : Rat) = 0 := by num_simp
         simp only [idx] at hs h2
-        rw [h2, hs]
+        rw [h2, hs, hz]
         grind
 
 theorem mem_addVars (acc row : List Nat) (v : Nat) : v ∈ addVars acc row ↔ v ∈ acc ∨ v ∈ row := by
@@ -651,12 +729,11 @@ def LRow.holds (a : List Rat) (r : LRow Rat) : Bool := r.rel.holds (rowVal a r.c
 def LpP.toProblem (P : LpP Rat) : Lp.Problem :=
   { c := P.c, a := P.a, b := P.b, lo := P.lo, up := P.hi.map some }
 
-/-- Guard of `C08_root_lp_is_relaxation`: no row of the system mentions a variable twice
-(`to_lp_problem` ASSIGNS `row[lp_idx] = coeff`), and every system variable that is treated as a
-constant (`|upper − lower| < 1e-6`) is really fixed (`lower = upper`; the code substitutes `lower`) -/
+/-- Guard of `C08_root_lp_is_relaxation`: every system variable that is treated as a constant
+(`|upper − lower| < 1e-6`) is really fixed (`lower = upper`; the code substitutes `lower`).
+(Until fix 02fabc4 the guard also had to exclude rows that mention a variable twice.) -/
 def relaxGuard (eps : Rat) (m : OModel Rat) : Bool :=
-  (sysRows eps m).all (fun r => decide r.xs.Nodup)
-  && (sysVars ((sysRows eps m).map (·.xs))).all (fun v =>
+  (sysVars ((sysRows eps m).map (·.xs))).all (fun v =>
         let var := m.vars.getD v (.int [0])
         !isConst var || decide ((boundsOf var).1 = (boundsOf var).2))
 
